@@ -458,6 +458,15 @@ class ChartRules:
                 continue
             if e.kind == "mutcall" and e.key == "setdefault" and itm is not None and e.target == itm and \
                     strip(e.value[0]) == strip(I) and e.value[1][0] in ("call", "dict") and len(e.value) == 2:
+                # the per-instrument dict must be allocated in place (one per instrument), not a hoisted / shared object
+                inplace = False
+                for n_ in ast.walk(e.node):
+                    if isinstance(n_, ast.Call) and isinstance(n_.func, ast.Attribute) and n_.func.attr == "setdefault" and len(n_.args) == 2:
+                        a2 = n_.args[1]
+                        inplace = isinstance(a2, ast.Dict) or (isinstance(a2, ast.Call) and isinstance(a2.func, ast.Name) and a2.func.id == "dict")
+                if not inplace:
+                    fail(r, ctx, f, e.node, "the per-instrument difficulty dict passed to setdefault is not allocated in place: one dict object would be "
+                                            "shared by every instrument (a track then appears under instruments that are not in the file)")
                 continue
             fail(r, ctx, f, e.node, f"routing has an extra effect ({e.kind} {e.key if isinstance(e.key, str) else ''} on {show(e.target)[:80]}): "
                                     f"tracks must not share state across sections")
